@@ -23,7 +23,7 @@ pub fn run_sat(case: &Value, _seed: u64) -> Outcome {
     // version spelled with an explicit epoch 0 ("0:1.0" and "1.0" are the same Debian version, not the same text)
     // chain 4: versions whose order is not the order of their texts ("1.10" after "1.9", "1.0.0" after "1.0", a
     // revision after none) - the chain is used only if debversion itself orders it ascending
-    const CHAIN4: [&str; 6] = ["0.9z", "1.0", "1.0.0", "1.9", "1.10", "1.10-0.1"];
+    const CHAIN4: [&str; 6] = ["0.9z", "1.0", "1.0.0", "1.9", "1.9-1", "1.10"];   // (rank 3 has no revision, rank 4 is the same upstream version with one)
     let chain4_ok = CHAIN4.windows(2).all(|w| w[0].parse::<Version>().ok() < w[1].parse::<Version>().ok());
     for chain_id in 0..5 {
         if chain_id == 4 && !chain4_ok { o.d("chain4_not_ascending", "", String::new()); continue; }
